@@ -9,6 +9,15 @@ import Qryn.Base.Sort
     the direct (LogQL) semantics. Trusted base: this is a model of ClickHouse, not ClickHouse. -/
 namespace Qryn.Sql
 
+/-- scalar components of a tuple (C08: the `(value, fingerprint[, labels])` tuples of TopKPlanner) -/
+inductive Atom
+  | int (i : Int)
+  | rat (q : Rat)
+  | str (s : Bytes)
+  | null
+  | map (m : List (Bytes × Bytes))
+deriving DecidableEq, Repr
+
 inductive Val
   | int (i : Int)
   | str (s : Bytes)
@@ -17,6 +26,9 @@ inductive Val
   | num (s : Bytes)            -- the Float64 parsed from the text `s` (parsing is an oracle)
   | numLit (s : String)        -- a numeric literal written by the planner, e.g. `5.000000`
   | strs (vs : List Bytes)     -- Array(String) (C11: groupArray / groupUniqArray of span ids)
+  -- ---- added for C08 (additive)
+  | rat (q : Rat)              -- a Float64 value, idealised as an exact rational (no IEEE rounding is modelled)
+  | tuples (ts : List (List Atom))  -- Array(Tuple(...)): `groupArray((a, b, c))` and what `arraySort`/`arraySlice` make of it
 deriving DecidableEq, Repr
 
 abbrev Row := List (String × Val)
@@ -30,6 +42,9 @@ structure Oracles where
   isNum : Bytes → Bool                      -- `toFloat64OrNull(s) IS NOT NULL`
   numCmp : String → Bytes → String → Bool   -- comparison operator, text of the value, literal text
   lower : Bytes → Bytes                     -- case folding used by ilike
+  -- ---- added for C08 (additive; defaults keep existing structure instances valid)
+  toFloat : Bytes → Rat := fun _ => 0       -- `toFloat64OrZero(s)`: the number a text denotes (0 when it is none)
+  cityHash : List (Bytes × Bytes) → Int := fun _ => 0   -- `cityHash64(map)`
 
 def boolVal (x : Bool) : Val := .int (if x then 1 else 0)
 def Val.truthy : Val → Bool
@@ -86,6 +101,40 @@ def cmpOp (o : Oracles) (fn : String) (a b : Val) : Bool :=
     | ">=" => Val.cmpLe b a
     | _ => false
 
+/-! ### numbers (C08): Int64/UInt64 values are `.int`, Float64 values are exact rationals `.rat` -/
+def Val.toAtom : Val → Atom
+  | .int i => .int i | .rat q => .rat q | .str s => .str s | .map m => .map m | _ => .null
+def Atom.toVal : Atom → Val
+  | .int i => .int i | .rat q => .rat q | .str s => .str s | .map m => .map m | .null => .null
+
+def digitsVal (cs : List Char) : Nat := cs.foldl (fun acc c => acc * 10 + (c.toNat - 48)) 0
+
+/-- the rational a `%f`-style literal `123.456000` denotes -/
+def numLitRat (s : String) : Rat :=
+  match s.splitOn "." with
+  | [i] => (digitsVal i.toList : Int)
+  | [i, f] => ((digitsVal i.toList * 10 ^ f.length + digitsVal f.toList : Nat) : Int) / ((10 ^ f.length : Nat) : Int)
+  | _ => 0
+
+def Val.toRat? : Val → Option Rat
+  | .int i => some i
+  | .rat q => some q
+  | .numLit s => some (numLitRat s)
+  | _ => none
+
+/-- `a * b`: integer product of integers, else the Float64 product -/
+def mulVal : Val → Val → Val
+  | .int a, .int b => .int (a * b)
+  | a, b => match a.toRat?, b.toRat? with
+    | some x, some y => .rat (x * y)
+    | _, _ => .null
+
+/-- `a / b` is Float64 division; division by zero (inf/nan in ClickHouse) is not a number of the model: null -/
+def divVal (a b : Val) : Val :=
+  match a.toRat?, b.toRat? with
+  | some x, some y => if y = 0 then .null else .rat (x / y)
+  | _, _ => .null
+
 /-- tables already evaluated (WITH sub-queries), by alias -/
 abbrev Env := List (Alias × Table)
 
@@ -126,6 +175,13 @@ def evalE (o : Oracles) (env : Env) (r : Row) : Expr → Val
     | "match", [.str s, .str p] => boolVal (o.reMatch p s)
     | "JSONExtractString", [.str d, .str k] => .str (((o.jsonLabels d).lookup k).getD [])
     | "toFloat64OrNull", [.str s] => .num s
+    -- ---- added for C08
+    | "intDiv", [.int x, .int y] => if y = 0 then .null else .int (Int.tdiv x y)
+    | "toFloat64", [v] => match v.toRat? with | some q => .rat q | none => .null
+    | "toFloat64OrZero", [.str s] => .rat (o.toFloat s)
+    | "toFloat64OrZero", [.null] => .rat 0     -- an absent column of an unmatched ANY LEFT JOIN row has its type's default ('' / {})
+    | "cityHash64", [.map m] => .int (o.cityHash m)
+    | "length", [.str s] => .int s.length
     | _, _ => .null
   | .orderBy e _ => evalE o env r e
   | .sub _ => .null
@@ -144,6 +200,17 @@ def evalE (o : Oracles) (env : Env) (r : Row) : Expr → Val
   | .arrayJoin _ _ => .null
   | .anyIfNum _ => .null
   | .distinct e => evalE o env r e
+  | .mulOp x y => mulVal (evalE o env r x) (evalE o env r y)
+  | .divOp x y => divVal (evalE o env r x) (evalE o env r y)
+  | .mapFilterKeys keep keys m =>
+    match evalE o env r m with
+    | .map kv => .map (kv.filter (fun p => keys.contains p.1 == keep))
+    | _ => .null
+  | .mapAt m key => match evalE o env r m with | .map kv => .str ((kv.lookup key).getD []) | _ => .null
+  | .tupleAt name i => r.get (name ++ "." ++ toString i)
+  | .topkSlice _ _ _ => .null        -- an aggregate: only meaningful per group (`Sql.SemAgg`)
+  | .arrayJoinFrom _ _ => .null      -- a FROM clause (`Sql.SemAgg.sourceRowsA`)
+  | .fixedLit units scale => .rat ((units : Int) / ((10 ^ scale : Nat) : Int))   -- the number the literal denotes
 def evalEs (o : Oracles) (env : Env) (r : Row) : List Expr → List Val
   | [] => []
   | e :: es => evalE o env r e :: evalEs o env r es
